@@ -3,6 +3,7 @@
 EXTENDS Integers, Sequences
 RT_Sigs == <<[f |-> "f", idx |-> 0, types |-> <<1>>, p2 |-> 0, cond |-> FALSE]>>
 RT_LEPairs == {<<1, 1>>}
+RT_Structural == {1}
 RT_Samples == <<[name |-> "s", inst |-> {1}, condtrue |-> {}]>>
 RT_Calls == <<[f |-> "f", args |-> <<1>>]>>
 ====
